@@ -94,6 +94,8 @@ type Net = Network<(), Data, CapStorage, CapFactory>;
 
 /// per-mille grid of factors in (0, 1)
 const FACTORS: &[i64] = &[10, 100, 250, 500, 750, 900, 990];
+/// spread factors biased towards growth (growing threshold = -dim * log2(spread))
+const SPREADS: &[i64] = &[10, 250, 500, 750, 750, 900, 900, 990, 990, 999];
 
 fn gen_points(rng: &mut Rng, dim: usize, n: usize, kind: u64, centres: &[Vec<i64>]) -> Vec<Vec<i64>> {
     // values are integers scaled by 1/16 on the Rust side
@@ -158,17 +160,21 @@ fn gen_net(rng: &mut Rng, big: bool) -> Value {
     let n_centres = rng.usize(1, 6);
     let centres: Vec<Vec<i64>> = (0..n_centres).map(|_| (0..dim).map(|_| rng.range(-1600, 1600)).collect()).collect();
     let kind = rng.below(6);
-    let n_init = if rng.chance(1, 4) { rng.usize(1, 4) } else { rng.usize(4, if big { 120 } else { 48 }) };
+    let n_init = match rng.below(8) {
+        0 => rng.usize(1, 4),
+        1 => *rng.pick(&[41usize, 90, 160]), // 5, 9, 16 initial nodes
+        _ => rng.usize(4, if big { 120 } else { 48 }),
+    };
     let init_kind = if rng.chance(1, 2) { kind } else { rng.below(6) };
     let init = gen_points(rng, dim, n_init, init_kind, &centres);
-    let n_ops = rng.usize(1, if big { 40 } else { 16 });
+    let n_ops = rng.usize(1, if big { 60 } else { 30 });
     let mut ops = vec![];
     let mut time = 0usize;
     for _ in 0..n_ops {
         let op = match rng.below(10) {
             0..=4 => {
                 time += rng.usize(0, 3);
-                let n = if rng.chance(1, 8) { 0 } else { rng.usize(1, if big { 48 } else { 24 }) };
+                let n = if rng.chance(1, 8) { 0 } else { rng.usize(1, if big { 64 } else { 40 }) };
                 let k = if rng.chance(3, 4) { kind } else { rng.below(6) };
                 json!({"op": "store", "time": time, "pts": gen_points(rng, dim, n, k, &centres)})
             }
@@ -191,7 +197,7 @@ fn gen_net(rng: &mut Rng, big: bool) -> Value {
     }
     json!({
         "k": "net", "dim": dim,
-        "cfg": {"node_size": node_size, "spread": rng.pick(FACTORS), "dist": rng.pick(FACTORS),
+        "cfg": {"node_size": node_size, "spread": rng.pick(SPREADS), "dist": rng.pick(FACTORS),
                 "lr": rng.pick(&[100i64, 300, 1000]), "rebal": rng.pick(&[1usize, 2, 5, 10, 100]),
                 "init_err": rng.chance(1, 2)},
         "init": init, "ops": ops,
@@ -233,7 +239,7 @@ fn gen_pop(rng: &mut Rng, big: bool) -> Value {
     let kind = rng.below(6);
     let initial_size = *rng.pick(&[4usize, 4, 5, 8, 16]);
     let er64 = *rng.pick(&[58i64, 58, 32, 48, 64, 16]); // exploration ratio in 1/64
-    let n_ticks = rng.usize(1, if big { 160 } else { 60 });
+    let n_ticks = rng.usize(1, if big { 240 } else { 120 });
     // termination estimate in 1/1024: mostly slowly increasing, sometimes jumping (also backwards)
     let mut te: i64 = 0;
     let step = rng.range(1, 1 + 2048 / n_ticks as i64);
@@ -277,7 +283,7 @@ fn gen_pop(rng: &mut Rng, big: bool) -> Value {
     json!({
         "k": "pop", "dim": dim,
         "cfg": {"initial_size": initial_size, "selection_size": rng.pick(&[2usize, 4, 8]), "elite_size": rng.pick(&[1usize, 2, 4]),
-                "node_size": rng.pick(&[1usize, 2, 3]), "spread": rng.pick(FACTORS), "dist": rng.pick(FACTORS),
+                "node_size": rng.pick(&[1usize, 2, 3]), "spread": rng.pick(SPREADS), "dist": rng.pick(FACTORS),
                 "rebal": rng.pick(&[1usize, 2, 3, 5, 10, 20, 100]), "er64": er64},
         "ticks": ticks,
     })
@@ -291,10 +297,11 @@ fn gen_wts(rng: &mut Rng) -> Value {
 fn gen_cases(rng: &mut Rng, tier: Tier) -> Vec<Value> {
     let scale = if tier == Tier::Thorough { 20 } else { 1 };
     let mut cases = vec![];
-    // hand-written shapes first: tiny maps, maps on both sides of the origin
-    for (a, b) in [(2, 2), (3, 4), (2, 3), (3, 3), (1, 1)] {
-        for n_init in [4usize, 9, 16] {
-            let init: Vec<Vec<i64>> = (0..n_init).map(|i| vec![(i as i64 % 4) * 160, (i as i64 / 4) * 160]).collect();
+    // hand-written shapes first: with a tiny spread factor the map does not grow, so the initial 2x2 / 3x2 / 3x3 / 4x4
+    // grids (4, 5, 9, 16 initial nodes for 4, 41, 90, 160 inputs) reach the contraction as they are
+    for (a, b) in [(2, 2), (3, 4), (2, 3), (3, 3), (1, 1), (4, 4)] {
+        for n_init in [4usize, 41, 90, 160] {
+            let init: Vec<Vec<i64>> = (0..n_init).map(|i| vec![(i as i64 % 13) * 160, (i as i64 / 13) * 160]).collect();
             cases.push(json!({
                 "k": "net", "dim": 2,
                 "cfg": {"node_size": 2, "spread": 10, "dist": 500, "lr": 100, "rebal": 10, "init_err": false},
@@ -306,10 +313,10 @@ fn gen_cases(rng: &mut Rng, tier: Tier) -> Vec<Value> {
     for _ in 0..(400 * scale) {
         cases.push(gen_off(rng));
     }
-    for _ in 0..(110 * scale) {
+    for _ in 0..(300 * scale) {
         cases.push(gen_net(rng, tier == Tier::Thorough));
     }
-    for _ in 0..(60 * scale) {
+    for _ in 0..(150 * scale) {
         cases.push(gen_pop(rng, tier == Tier::Thorough));
     }
     for _ in 0..(12 * scale) {
